@@ -46,7 +46,7 @@ def gen_description(rng):
 class C12(Check):
     ID = 'C12'
     TRACE_FILES = ('client/__init__.py',)
-    TIERS = {'quick': {'runs': 3000, 'wall': 80}, 'thorough': {'runs': 300000, 'wall': 800}}
+    TIERS = {'quick': {'runs': 9000, 'wall': 80}, 'thorough': {'runs': 300000, 'wall': 800}}
     RULE = ('case = (peer mode) generated description + <= 30 messages {update, error_update, reply, changed, '
             'error_read; unknown parameter, module shorthand, malformed, future timestamp} + callback '
             '(un)registrations at node/module/parameter level incl. raising and one-shot callbacks; or (e2e / proxy '
